@@ -224,14 +224,40 @@ Definition ref_ok (S : schema) (B : bindings) (t : ty) : bool :=
   | _ => true
   end.
 
+(* Go field names of a declaration are pairwise distinct; so are the Go names
+   of the constructors of a sum type, and none of them is "SumType" *)
 Definition names_ok (d : decl) : bool := nodup_str (map (fun f => camel (fname f)) (dfields d)).
+Definition sum_names_ok (S : schema) (d : decl) : bool :=
+  nodup_str ("SumType" :: map (fun d' => camel (dname d')) (ctors_of S (dres d))).
 
+(* decodeVector pre-allocates min(count, maxPrealloc) elements: never above
+   maxAlloc when an element is at most 2^36 bytes *)
+Definition esz_limit : N := 68719476736.
+Fixpoint vec_ok (B : bindings) (t : ty) : bool :=
+  match t with
+  | TVector e =>
+      match goty e with Some g => gsize B g <=? esz_limit | None => false end && vec_ok B e
+  | _ => true
+  end.
+
+(* everything a type expression refers to is served by the bindings *)
+Definition ty_ok (S : schema) (B : bindings) (t : ty) : bool :=
+  forallb (ref_ok S B) (ty_refs t) && vec_ok B t.
+
+(* [matches_all S F B]: every declaration of the types section S and every
+   function of F has its expected binding in B, and every field type is served *)
 Definition matches_all (S F : list decl) (B : bindings) : bool :=
   forallb (fun d => has B (expected_for S d)) S
   && forallb (fun f => has B (expected_request f)) F
-  && forallb (fun d => forallb (ref_ok S B) (decl_refs d)) (S ++ F)
+  && forallb (fun d => forallb (fun f => ty_ok S B (fty f)) (dfields d)) (S ++ F)
   && forallb names_ok (S ++ F)
+  && forallb (sum_names_ok S) S
   && nodup_str (map b_name B).
+
+(* the type expression under which a declaration of the types section is used
+   on its own: bare for a single-constructor type, boxed for a sum *)
+Definition decl_ty (S : schema) (d : decl) : ty :=
+  if single S d then TBare (dname d) else TBoxed (dres d).
 
 (* every TL binding of the Go package is called for by the schema *)
 Definition no_stray (S F : list decl) (B : bindings) : bool :=
@@ -257,7 +283,7 @@ Definition matches_method (S : schema) (f : decl) (m : method) : bool :=
      end
   && (m_req_id m =? did f)
   && match find_ctor S "liteServer.error" with
-     | Some e => m_err_id m =? did e
+     | Some e => (m_err_id m =? did e) && single S e
      | None => false
      end
   && list_eqb N.eqb (m_resp_ids m) (map did (ctors_of S (dres f)))
@@ -265,7 +291,8 @@ Definition matches_method (S : schema) (f : decl) (m : method) : bool :=
   && match result_goname S (dres f) with
      | Some n => String.eqb n (m_resp_ty m)
      | None => false
-     end.
+     end
+  && negb (existsb (N.eqb (m_err_id m)) (m_resp_ids m)).
 
 Definition methods_ok (S F : list decl) (ms : list method) : bool :=
   Nat.eqb (length F) (length ms)
